@@ -40,6 +40,14 @@ CLAIMS = {
              "transactions; only named functions mutate table and heap. This implies at-most-one final outcome and silence "
              "afterwards, given the std HashMap/BinaryHeap contracts.",
         design="DESIGN.md section 5 C05"),
+    "C06": dict(
+        technique="expression-tree extraction (abstract interpretation of MIR) of RtoCalculator / RtoManager and of the client's timer wiring, compared structurally with the RFC 8489 7.2.1 recurrence",
+        text="Partial: the recurrence that generates the schedule (doubling multiplier, Rc transmissions, final Rm x RTO, "
+             "defaults 500 ms / 7 / 16), the manager's absolute-deadline bookkeeping identities per call (early call re-arms "
+             "the remainder without consuming a slot; late call consumes slots until the first deadline beyond now) and the "
+             "client wiring are decided on all paths. The closed-form instants over sequences of timer calls and the failure "
+             "instant are NOT decided (arithmetic over runtime Instants, induction over calls).",
+        design="DESIGN.md section 5 C06"),
     "C07": dict(
         technique="decision-table extraction by abstract interpretation with loop fixpoint over attribute kinds, compared row by row with RFC 8489 9.1.4",
         text="The full decision table of short-term receive processing (class x configured/learned algorithm x admitted "
@@ -96,6 +104,15 @@ CLAIMS = {
              "rule wiring and the staleness guard are decided on all paths. Numerical agreement with a double-precision "
              "reference is NOT decided.",
         design="DESIGN.md section 5 C15"),
+    "C16": dict(
+        technique="abstract interpretation of StunPacketDecoder::decode/new; per-path conservation laws checked as identities between linear forms of the extracted index ranges and counts",
+        text="Partial: on each of the seven paths of one decode(data) call, as linear identities over (current_size, "
+             "expected_size, data.len(), header length): every copy has equal source and destination length, starts at the "
+             "buffer's fill level and at the consumed offset of data; consumed = bytes copied; current_size' = current_size + "
+             "copied; packet size = expected size; missing = expected - current_size'; errors only after exactly 20 header "
+             "bytes, handing the buffer back. The induction over calls (any chunking reproduces the stream) and byte equality "
+             "of the copies are NOT decided.",
+        design="DESIGN.md section 5 C16"),
     "C17": dict(
         technique="interprocedural effect analysis by path-sensitive abstract interpretation: writes on every rejecting path",
         text="On every path of on_buffer_recv that returns Err, and on every path of the mechanisms' receive functions that "
@@ -113,10 +130,7 @@ CLAIMS = {
         design="DESIGN.md section 5 C19"),
 }
 
-NOT_APPLICABLE = [
-    {"property_id": "C06", "reason": "retransmission instants are arithmetic over runtime Instants/Durations (t0+RTO, 3RTO, lateness skipping): no finite abstraction or solver-free static argument in reach bounds them; the byte-identical retransmission clause is decided under C13 (R13.6)"},
-    {"property_id": "C16", "reason": "stream reassembly correctness is relational index arithmetic over runtime lengths and byte equality over all chunkings: needs a relational numeric domain or a solver; only its panic sites are covered, under C03's reviewed budget"},
-]
+NOT_APPLICABLE = []     # every property has at least a structural clause decided (C06 and C16 are partial claims)
 
 
 def available():
